@@ -180,6 +180,15 @@ Definition stride {A} (l : list A) (n size : nat) : list A := stride_aux l 0 n s
 Definition shift_step (z : Z) (acc : Z * Z) (t : tilt) : Z * Z := (fst acc - z * fst t, snd acc - z * snd t).
 Definition shift_of (z : Z) (tl : list tilt) : Z * Z := fold_left (shift_step z) tl (0, 0).
 
+(* the contents of the fields of a wavefront result *)
+Definition result_values (s : state) (out : outcome) : option (list arrv) :=
+  match o_res out with
+  | VObj j => match nth_error (ob s) j with
+              | Some (Wave fs) => Some (map (fun f => valof s (f_data f)) fs)
+              | _ => None end
+  | _ => None
+  end.
+
 Section Purity.
 Variable K : kernels.
 
@@ -509,6 +518,12 @@ Definition dft_ok (x : state * op * (state * outcome)) : Prop :=
   | _ => True
   end.
 
+(* multiply a wavefront by a plane, then propagate the product: the field contents that come out *)
+Definition propagated (z : Z) (keys : list key) (s : state) (p w : nat) : option (list arrv) :=
+  let sa := fst (step s (OMul p w)) in
+  let r := step sa (OPropDft (length (env s)) z keys) in
+  result_values (fst r) (snd r).
+
 End Purity.
 
 Definition init : state := mkstate [] [] [] [] 0.
@@ -544,6 +559,19 @@ Definition centry_ok (s : state) (e : key * cent) : Prop :=
   cell_is s a cR /\ cell_is s b cS /\ cell_is s c cU /\ cell_is s d cV.
 Definition cache_ok (s : state) : Prop := forall e, In e (cache s) -> centry_ok s e.
 Definition inv (s : state) : Prop := wf s /\ cache_ok s.
+(* what a plane / a wavefront is, as far as multiply and propagate can tell: array contents, and the tilt
+   list only through its per-segment sum / the accumulated shift *)
+Definition tsum (tl : list tilt) : Z * Z := fold_left (fun acc t => (fst acc + fst t, snd acc + snd t)) tl (0, 0).
+Definition plane_obs (s : state) (o : obj) : option (arrv * arrv * arrv * nat * list (Z * Z)) :=
+  match o with
+  | Plane a d m tl nseg _ =>
+      Some (valof s a, valof s d, valof s m, Nat.max nseg 1,
+            map (fun n => tsum (stride tl n (Nat.max nseg 1))) (seq 0 (Nat.max nseg 1)))
+  | _ => None
+  end.
+Definition field_obs (z : Z) (s : state) (f : field) : arrv * (Z * Z) := (valof s (f_data f), shift_of z (f_tilt f)).
+Definition wave_obs (z : Z) (s : state) (o : obj) : option (list (arrv * (Z * Z))) :=
+  match o with Wave fs => Some (map (field_obs z s) fs) | _ => None end.
 (* operations with a _dft2_coords phase; a state with the hidden components forgotten *)
 Definition uses_cache (o : op) : bool := match o with ODft2 _ _ _ _ _ | OPropDft _ _ _ => true | _ => false end.
 Definition forget (s : state) (r : Z) : state := mkstate (hp s) (ob s) (env s) [] r.
